@@ -63,7 +63,7 @@ public:
     if (L.isInvalid() || SM.isInSystemHeader(L) || !SM.isWrittenInMainFile(L) &&
         SM.getFilename(L).empty())
       return;
-    if (MI->getNumTokens() == 0 || MI->getNumTokens() > 12)
+    if (MI->getNumTokens() > 12)
       return;
     std::string body;
     for (const Token &T : MI->tokens()) {
@@ -901,8 +901,15 @@ public:
             });
         }
       });
+      // configuration switches: object-like macros with an empty body (#define USE_X)
+      J.attributeArray("flags", [&] {
+        for (const MacroRec &M : Macros)
+          if (M.body.empty())
+            J.value(M.name);
+      });
       J.attributeArray("macros", [&] {
         for (const MacroRec &M : Macros)
+          if (!M.body.empty())
           J.object([&] {
             J.attribute("n", M.name);
             J.attribute("b", llvm::json::fixUTF8(M.body));
